@@ -568,6 +568,64 @@ fn judge(ctx: &Ctx, loc: &mut Local, pylog: &Mutex<PyLog>, case: &Case<'_>) {
         }
     }
 
+    // ---- (a') the same serialized container decoded through the reader entry point (`BinRead::read_options`) from a
+    // reader that stands at the container's first byte INSIDE a larger stream (as in a data archive, where other
+    // bytes precede the container; a container with a chunk table is also followed by other bytes — a container
+    // without table extends to the end of its stream by definition). "Decoding the serialized container" does not
+    // depend on where in a stream the container lies. Judged only when the slice decode above is right, so that one
+    // defect does not fire twice.
+    if repo_ok {
+        let has_table = case.container.len() >= 8 && case.container[4..8] != [0, 0, 0, 0];
+        let sel = mix64(case.container.len() as u64, case.expected.len() as u64);
+        let lead = match sel % 5 {
+            0 => 1usize,
+            1 => 30,
+            2 => 4096,
+            3 => case.container.len().clamp(1, 1 << 16),
+            _ => 2 + (sel >> 8) as usize % 9000,
+        };
+        let tail = if has_table { 1 + (sel >> 32) as usize % 200 } else { 0 };
+        let mut stream: Vec<u8> = Vec::with_capacity(lead + case.container.len() + tail);
+        stream.extend((0..lead).map(|i| (mix64(sel, i as u64 / 8) >> (8 * (i % 8))) as u8));
+        stream.extend_from_slice(case.container);
+        stream.extend((0..tail).map(|i| (mix64(!sel, i as u64 / 8) >> (8 * (i % 8))) as u8));
+        let table = if has_table { "table=present" } else { "table=none" };
+        let r = catch_unwind(AssertUnwindSafe(|| {
+            let mut cur = std::io::Cursor::new(stream.as_slice());
+            cur.set_position(lead as u64);
+            let f = <BlteFile as binrw::BinRead>::read_options(&mut cur, binrw::Endian::Big, ()).map_err(|e| format!("read_options: {e}"))?;
+            let end = cur.position();
+            f.decompress_with_keys(&store).map(|v| (v, end)).map_err(|e| format!("decompress_with_keys: {e}"))
+        }))
+        .map_err(|p| panic_text(&p));
+        loc.obs("embedded.reader_at_nonzero_offset", 1);
+        loc.obs(&format!("embedded.{table}"), 1);
+        match &r {
+            Ok(Ok((v, end))) if *v == expected_all => {
+                loc.obs("embedded.outcome.decoded==added", 1);
+                // where the reader stands afterwards is not part of the statement: recorded only
+                if *end == (lead + case.container.len()) as u64 {
+                    loc.obs("embedded.observed.reader_left_at_container_end", 1);
+                } else {
+                    loc.obs("embedded.observed.reader_left_elsewhere", 1);
+                }
+            }
+            other => {
+                let what = match other {
+                    Ok(Ok((v, _))) => format!("Ok({} bytes {}) != added ({} bytes)", v.len(), hex_short(v, 24), expected_all.len()),
+                    Ok(Err(e)) => format!("Err: {e}"),
+                    Err(p) => format!("panic: {p}"),
+                };
+                loc.obs("embedded.outcome.decoded!=added_or_error", 1);
+                ctx.violation(
+                    &format!("C01|{entry}|BinRead::read_options(reader-inside-larger-stream)|container-does-not-decode-to-added-bytes(slice-parse-does)|{table}"),
+                    "the serialized container decodes to the added bytes when parsed from a slice, but not when read through the reader entry point from a reader positioned at its first byte inside a larger stream",
+                    with_detail(json!({"lead_bytes":lead,"trailing_bytes":tail,"result":what})),
+                );
+            }
+        }
+    }
+
     // ---- (b) independent decoder over the same bytes
     let lookup = |name: u64| case.keys.iter().find(|k| k.0 == name).map(|k| k.1);
     let rd = rblte::decode(case.container, &lookup);
@@ -1388,6 +1446,8 @@ fn main() {
         ("programs.no_add_calls", "no builder program without an add call was generated"),
         ("op.BlteFile::compress", "BlteFile::compress was never called"),
         ("op.BlteFile::single_chunk", "BlteFile::single_chunk was never called"),
+        ("embedded.table=present", "no container with a chunk table was read through the reader entry point from inside a larger stream"),
+        ("embedded.table=none", "no container without chunk table was read through the reader entry point from inside a larger stream"),
     ] {
         if ctx.get_obs(k) == 0 {
             ctx.inconclusive(&format!("{why} (observation {k} = 0)"));
